@@ -1,6 +1,7 @@
 (* extraction of the executable C16 model (ExtrOcamlBasic only; Z stays the extracted inductive) *)
 From Coq Require Import List ZArith Extraction ExtrOcamlBasic.
-From LN Require Import C16_Defs.
+From LN Require Import C16_Defs C16_StorageDefs.
 Extraction Language OCaml.
 Extraction "extracted/c16_model.ml" size offset offset0 dims0 validb validpb unoffset view_tensor
-  view_vector view_matrix view_slice slice_validb reshape view_at gather integral naive_integral_at.
+  view_vector view_matrix view_slice slice_validb reshape view_at gather integral naive_integral_at
+  srun sdump mkSto.
